@@ -850,9 +850,6 @@ package table
 //@   ensures o == oc.BGP_ORIGIN_ATTR_TYPE_EGP ==> result == api.OriginType_ORIGIN_TYPE_EGP
 //@   ensures o == oc.BGP_ORIGIN_ATTR_TYPE_INCOMPLETE ==> result == api.OriginType_ORIGIN_TYPE_INCOMPLETE
 //@   ensures o != oc.BGP_ORIGIN_ATTR_TYPE_IGP && o != oc.BGP_ORIGIN_ATTR_TYPE_EGP && o != oc.BGP_ORIGIN_ATTR_TYPE_INCOMPLETE ==> result == api.OriginType_ORIGIN_TYPE_UNSPECIFIED
-// from C10 "what is read back equals what was configured": when statements are taken out of a policy without being
-// preserved, the statements looked at for removal from the statement table are the ones that were taken out (those of
-// the request), not the ones the policy keeps
-//@ func (*RoutingPolicy).DeletePolicy
-//@   claims step
-//@   loop 0 step !all ==> st == x.Statements[__iter]
+//@ func (*RoutingPolicy).statementInUse
+//@   claims frame
+//@   modifies nothing
